@@ -640,3 +640,197 @@ Proof.
     destruct (H k i Hk) as [_ [_ [the_tx [o [u [H1 [H2 _]]]]]]]. eauto.
 Qed.
 End DBP.
+
+(* ==== the transaction as a mutable object: refused calls change nothing, histories ================== *)
+Section StP.
+Variable bc : tx -> Z.
+
+(* the state-passing version agrees with the value-returning one; after a raise the object is the old one *)
+Lemma distribute_st_spec t fe :
+  distribute_from_split_pool_st bc t fe =
+  match distribute_from_split_pool bc t fe with
+  | Ret (t', zc) => (Ret zc, t')
+  | Raise e => (Raise e, t)
+  | OutOfFuel => (OutOfFuel, t)
+  end.
+Proof.
+  unfold distribute_from_split_pool_st, distribute_from_split_pool.
+  destruct (0 <? zero_count_of (t_outs t)); [|reflexivity].
+  destruct (sum_unspents (t_unspents t)) as [total| |]; cbn [bind]; try reflexivity.
+  destruct (_ <? 0); [reflexivity|].
+  destruct (_ <? zero_count_of (t_outs t)); [reflexivity|].
+  destruct (split_with_remainder _ _); reflexivity.
+Qed.
+
+Lemma distribute_st_refused t fe e :
+  fst (distribute_from_split_pool_st bc t fe) = Raise e -> snd (distribute_from_split_pool_st bc t fe) = t.
+Proof.
+  rewrite distribute_st_spec.
+  destruct (distribute_from_split_pool bc t fe) as [[t' zc]| |]; cbn [fst snd]; intros H; try discriminate; reflexivity.
+Qed.
+
+(* a refused distribution followed by another one behaves like the second one alone *)
+Lemma distribute_st_retry t fe1 fe2 e :
+  fst (distribute_from_split_pool_st bc t fe1) = Raise e ->
+  distribute_from_split_pool_st bc (snd (distribute_from_split_pool_st bc t fe1)) fe2 =
+  distribute_from_split_pool_st bc t fe2.
+Proof. intros H. rewrite (distribute_st_refused _ _ _ H). reflexivity. Qed.
+
+(* the ValueError of the state-passing version: exactly the boundary, and the transaction is untouched *)
+Lemma distribute_st_value_error t fe :
+  fst (distribute_from_split_pool_st bc t fe) = Raise E_VALUE <->
+  (0 < zero_count_of (t_outs t) /\
+   exists total, sum_unspents (t_unspents t) = Ret total /\
+     let remaining := total - (total_out t + fee_value bc t fe) in
+     (remaining < 0 \/ remaining < zero_count_of (t_outs t))).
+Proof.
+  rewrite <- distribute_value_error_iff. rewrite distribute_st_spec.
+  destruct (distribute_from_split_pool bc t fe) as [[t' zc]| |]; cbn [fst]; split; intros H; try discriminate; inversion H; reflexivity.
+Qed.
+
+Variable srctx : Type.
+Variable src_hash : srctx -> bytes.
+Variable src_outs : srctx -> list txout.
+Variable dbs : nat -> bytes -> option srctx.
+
+Notation step := (step bc srctx src_hash src_outs dbs).
+Notation run := (run bc srctx src_hash src_outs dbs).
+
+(* every refused call — any operation, any exception class — leaves the object as it was *)
+Lemma step_refused o t e : fst (step o t) = Raise e -> snd (step o t) = t.
+Proof.
+  destruct o; cbn [TxBuild.step fst snd]; try reflexivity; try discriminate.
+  - unfold set_unspents_st. destruct (negb _); cbn; [reflexivity|discriminate].
+  - unfold unspents_from_db_st. destruct (unspents_from_db_list _ _ _ _ _ _); cbn; try reflexivity; discriminate.
+  - unfold edit_unspent_st. destruct (nth_error _ _) as [[u|]|]; cbn; try reflexivity; discriminate.
+  - unfold edit_out_st. destruct (nth_error _ _); cbn; [discriminate|reflexivity].
+  - apply distribute_st_refused.
+Qed.
+
+(* observers never change the object *)
+Lemma step_observer o t : is_observer o = true -> snd (step o t) = t.
+Proof. destruct o; cbn; intros H; try discriminate; reflexivity. Qed.
+
+(* ... and what they report is a function of the current fields only *)
+Lemma step_observer_value o t : is_observer o = true ->
+  fst (step o t) =
+  match o with
+  | ObsTotalIn => total_in t
+  | ObsTotalOut => Ret (total_out t)
+  | ObsFee => fee t
+  | ObsIsCoinbase => b2o (tx_is_coinbase t)
+  | ObsValidate k => validate_unspents srctx src_hash src_outs (dbs k) t
+  | _ => Ret 0
+  end.
+Proof. destruct o; cbn; intros H; try discriminate; reflexivity. Qed.
+
+Definition is_mutator (o : op) : bool := negb (is_observer o).
+
+Lemma run_cons o h t :
+  run (o :: h) t = (fst (step o t) :: fst (run h (snd (step o t))), snd (run h (snd (step o t)))).
+Proof. cbn [TxBuild.run]. destruct (step o t) as [res t1]. cbn [fst snd]. destruct (run h t1) as [rs t2]. reflexivity. Qed.
+
+Lemma run_app h1 h2 t :
+  run (h1 ++ h2) t = (fst (run h1 t) ++ fst (run h2 (snd (run h1 t))), snd (run h2 (snd (run h1 t)))).
+Proof.
+  revert t; induction h1 as [|o h1 IH]; intros t; [cbn; destruct (run h2 t); reflexivity|].
+  rewrite <- app_comm_cons, !run_cons, IH. reflexivity.
+Qed.
+
+(* history independence: the state after a history is the state after its mutators alone — the
+   observer calls made on the way (fee, total_in, validate_unspents, ...) leave no trace *)
+Lemma run_state_mutators_only h t : snd (run h t) = snd (run (filter is_mutator h) t).
+Proof.
+  revert t; induction h as [|o h IH]; intros t; [reflexivity|].
+  rewrite run_cons. cbn [snd filter]. unfold is_mutator at 1.
+  destruct (is_observer o) eqn:E; cbn [negb].
+  - rewrite step_observer by exact E. apply IH.
+  - rewrite run_cons. cbn [snd]. apply IH.
+Qed.
+
+(* so an observation made after any history equals the observation made on the transaction reached by the
+   mutators alone (a "freshly built equal transaction": in the model a transaction IS its fields) *)
+Lemma observation_history_independent h t o :
+  fst (step o (snd (run h t))) = fst (step o (snd (run (filter is_mutator h) t))).
+Proof. rewrite <- run_state_mutators_only. reflexivity. Qed.
+
+(* refused calls can be dropped from a history as well *)
+Definition accepted_at (o : op) (t : tx) : bool :=
+  match fst (step o t) with Raise _ => false | _ => true end.
+
+Fixpoint drop_refused (h : list op) (t : tx) : list op :=
+  match h with
+  | [] => []
+  | o :: r => if accepted_at o t then o :: drop_refused r (snd (step o t)) else drop_refused r t
+  end.
+
+Lemma run_state_drop_refused h t : snd (run h t) = snd (run (drop_refused h t) t).
+Proof.
+  revert t; induction h as [|o h IH]; intros t; [reflexivity|].
+  rewrite run_cons. cbn [snd drop_refused]. unfold accepted_at.
+  destruct (fst (step o t)) as [v|e|] eqn:E.
+  - rewrite run_cons. cbn [snd]. apply IH.
+  - rewrite (step_refused _ _ _ E). apply IH.
+  - rewrite run_cons. cbn [snd]. apply IH.
+Qed.
+
+(* unspents_from_db followed by validate_unspents against the same database: for a transaction whose inputs
+   are all ordinary (not coinbase, hash not null) validation succeeds with the fee computed from the loaded outputs *)
+Lemma unspents_from_db_list_spec db im ins us :
+  unspents_from_db_list srctx src_hash src_outs db im ins = Ret us ->
+  length us = length ins /\
+  forall k i, nth_error ins k = Some i -> txin_is_coinbase i = false ->
+    match nth_error us k with
+    | Some (Some o) => exists the_tx, db (i_hash i) = Some the_tx /\ src_hash the_tx = i_hash i /\
+                                      py_index (src_outs the_tx) (i_index i) = Ret o
+    | Some None => im = true
+    | None => False
+    end.
+Proof.
+  revert us; induction ins as [|x r IH]; intros us H; cbn [unspents_from_db_list] in H.
+  - inversion H. split; [reflexivity|]. intros [|k] i Hk; discriminate.
+  - assert (Hmiss : forall us0, (if im then bind (unspents_from_db_list srctx src_hash src_outs db im r) (fun us => Ret (None :: us)) else Raise E_KEY) = Ret us0 ->
+        im = true /\ exists us', unspents_from_db_list srctx src_hash src_outs db im r = Ret us' /\ us0 = None :: us').
+    { intros us0 H0. destruct im; [|discriminate]. split; [reflexivity|].
+      destruct (unspents_from_db_list srctx src_hash src_outs db true r) as [us'| |]; cbn [bind] in H0; try discriminate.
+      inversion H0. eauto. }
+    destruct (txin_is_coinbase x) eqn:Ec.
+    + destruct (unspents_from_db_list srctx src_hash src_outs db im r) as [us'| |]; cbn [bind] in H; try discriminate.
+      inversion H; subst us. destruct (IH us' eq_refl) as [HL HI]. split; [cbn; lia|].
+      intros [|k] i Hk Hc; cbn [nth_error] in *.
+      * inversion Hk; subst. congruence.
+      * apply HI; assumption.
+    + destruct (db (i_hash x)) as [the_tx|] eqn:Ed.
+      * destruct (bytes_eqb (src_hash the_tx) (i_hash x)) eqn:Eh.
+        -- destruct (py_index (src_outs the_tx) (i_index x)) as [o| |] eqn:Ep; cbn [bind] in H; try discriminate.
+           destruct (unspents_from_db_list srctx src_hash src_outs db im r) as [us'| |]; cbn [bind] in H; try discriminate.
+           inversion H; subst us. destruct (IH us' eq_refl) as [HL HI]. split; [cbn; lia|].
+           intros [|k] i Hk Hc; cbn [nth_error] in *.
+           ++ inversion Hk; subst i. exists the_tx. apply bytes_eqb_eq in Eh. auto.
+           ++ apply HI; assumption.
+        -- destruct (Hmiss us H) as [Him [us' [Hr ->]]]. destruct (IH us' Hr) as [HL HI]. split; [cbn; lia|].
+           intros [|k] i Hk Hc; cbn [nth_error] in *; [exact Him|apply HI; assumption].
+      * destruct (Hmiss us H) as [Him [us' [Hr ->]]]. destruct (IH us' Hr) as [HL HI]. split; [cbn; lia|].
+        intros [|k] i Hk Hc; cbn [nth_error] in *; [exact Him|apply HI; assumption].
+Qed.
+
+Lemma unspents_from_db_then_validate k t :
+  (forall j i, nth_error (t_ins t) j = Some i ->
+     txin_is_coinbase i = false /\ i_hash i <> gen_zero32 /\ 0 <= i_index i) ->
+  fst (step (MutUnspentsFromDb k false) t) = Ret 0 ->
+  let t' := snd (step (MutUnspentsFromDb k false) t) in
+  t_ins t' = t_ins t /\ t_outs t' = t_outs t /\
+  validate_unspents srctx src_hash src_outs (dbs k) t' = fee t'.
+Proof.
+  intros Hins H. cbn [TxBuild.step] in *. unfold unspents_from_db_st in *.
+  destruct (unspents_from_db_list srctx src_hash src_outs (dbs k) false (t_ins t)) as [us| |] eqn:E;
+    cbn [fst snd] in *; try discriminate.
+  split; [reflexivity|]. split; [reflexivity|].
+  apply validate_unspents_complete. cbn [with_unspents t_ins t_unspents].
+  intros j i Hj. destruct (Hins j i Hj) as [Hc [Hz Hi]].
+  split; [exact Hz|]. split; [exact Hi|].
+  destruct (unspents_from_db_list_spec _ _ _ _ E) as [_ HS]. specialize (HS j i Hj Hc).
+  destruct (nth_error us j) as [[o|]|] eqn:Eu; try contradiction; [|discriminate].
+  destruct HS as [the_tx [H1 [H2 H3]]]. exists the_tx, o, o. repeat split; auto.
+Qed.
+End StP.
